@@ -5,3 +5,4 @@ import SmtpV.Props.C04
 #print axioms SmtpV.Props.C04.C04_one_reply_per_command
 #print axioms SmtpV.Props.C04.C04_error_reply_and_notice
 #print axioms SmtpV.Props.C04.C04_lmtp_one_reply_per_recipient
+#print axioms SmtpV.Props.C04.C04_starttls_replies
